@@ -49,7 +49,7 @@ check("C18", "exploration",
       BASE_NOTE, "deterministic simulation: simulated feeder process with seeded chunking + seeded scheduler; offset invariant from kernel read events", "DESIGN.md section 4 C18")
 
 check("C09", "fault_enumeration",
-      "Generated programs of commands (21 command kinds - among them `exec` with a command operand that cannot be executed - x all redirection operators x open/closed/internal/wrong-mode descriptors x existing/missing operands x noclobber) run on the simulated OS next to a POSIX redirection-table model that predicts the table the command sees, the results of I/O through the redirected descriptors, the persistent table after exec, statuses and final files. For every program the descriptor-allocation failure positions are ENUMERATED: the fault-free run counts the K allocations and K more runs fail exactly the k-th with EMFILE; plus RLIMIT_NOFILE soft limits 3..16; likewise every position at which a write to a regular file can fail with ENOSPC (full disk) is enumerated (up to 12/40 per program). Under faults the invariants that must never be relaxed are checked: the shell's descriptor table after every non-exec command equals the table before it, no descriptor >= 10 survives an exec, descriptors >= 10 are exactly the close-on-exec ones, the shell terminates.",
+      "Generated programs of commands (21 command kinds - among them `exec` with a command operand that cannot be executed - x all redirection operators x open/closed/internal/wrong-mode descriptors x existing/missing operands x noclobber; a third of the -c programs in an interactive shell, where a redirection error on a special built-in does not end the shell) run on the simulated OS next to a POSIX redirection-table model that predicts the table the command sees, the results of I/O through the redirected descriptors, the persistent table after exec, statuses and final files. For every program the descriptor-allocation failure positions are ENUMERATED: the fault-free run counts the K allocations and K more runs fail exactly the k-th with EMFILE; plus RLIMIT_NOFILE soft limits 3..16; likewise every position at which a write to a regular file can fail with ENOSPC (full disk) is enumerated (up to 12/40 per program). Under faults the invariants that must never be relaxed are checked: the shell's descriptor table after every non-exec command equals the table before it, no descriptor >= 10 survives an exec, descriptors >= 10 are exactly the close-on-exec ones, the shell terminates.",
       BASE_NOTE + " Failure positions are complete per program; programs are sampled. stderr content is not modelled.",
       "deterministic simulation with enumerated fault injection (every fd-allocation failure position per program) + reference redirection-table model", "DESIGN.md section 4 C09")
 
